@@ -99,12 +99,24 @@ static void do_op(int me, struct op *op)
 		if (locked)
 			cds_wfcq_dequeue_lock(&qh[q], &qt[q]);
 		i = wgl_begin(&H, WQ_DEQ, q, 0);
-		cn = __cds_wfcq_dequeue_nonblocking(&qh[q], &qt[q]);
+		st = 0;
+		if (op->b & 1)
+			cn = __cds_wfcq_dequeue_with_state_nonblocking(&qh[q], &qt[q], &st);
+		else
+			cn = __cds_wfcq_dequeue_nonblocking(&qh[q], &qt[q]);
 		if (cn == CDS_WFCQ_WOULDBLOCK) {
 			wgl_cancel(&H, i);
 			usim_probe("wfcq.dequeue_wouldblock");
 		} else {
 			wgl_end(&H, i, consume(cn));
+			if (cn && (st & CDS_WFCQ_STATE_LAST)) {
+				int j = wgl_begin(&H, WQ_EMPTY, q, 0);
+				H.ops[j].inv = H.ops[i].inv;
+				wgl_end(&H, j, 1);
+				H.ops[j].ret = H.ops[i].ret;
+				wgl_set_after(&H, j, i);
+				H.ops[j].thread = -2;
+			}
 		}
 		if (locked)
 			cds_wfcq_dequeue_unlock(&qh[q], &qt[q]);
@@ -268,6 +280,7 @@ void scen_wfcq(void)
 			struct op *op = &s->ops[i];
 			uint32_t r = rnd(100);
 			op->a = rnd(2);
+			op->b = rnd(2);
 			op->v = next_id++;
 			if (legacy) {
 				op->kind = (!may_consume || r < 55) ? OP_ENQ : OP_DEQ;
